@@ -469,19 +469,34 @@ func replayDiff(v report.Violation) string {
 
 // ---- (c) slice garbage collection ----
 
-func gcSystem(edits int, chain bool, stale int) *world.System {
+func gcSystem(edits int, chain bool, stale int, longLived ...bool) *world.System {
+	ll := len(longLived) > 0 && longLived[0]
 	images := map[string]map[string]string{"v1": pkgFiles([]string{"a", "b"}, "1"), "v2": pkgFiles([]string{"a", "c"}, "1"), "v3": pkgFiles([]string{"a", "d"}, "1")}
 	return &world.System{
-		Name: fmt.Sprintf("package updates edits=%d chain=%v stale=%d", edits, chain, stale),
+		Name:       fmt.Sprintf("package updates edits=%d chain=%v stale=%d longLived=%v", edits, chain, stale, ll),
+		Persistent: ll,
 		Init: func() *world.World {
 			w := newPkgWorld(images, "v1")
+			if ll {
+				w.LongLived()
+			}
 			w.Budget["edit"] = edits
 			w.Budget["stale"] = stale
 			return w
 		},
 		Events: func(w *world.World) []world.Event {
 			evs := []world.Event{{Name: "reconcile:pkg:p", Apply: func(w *world.World) *world.Pass { return w.Reconcile(world.CtrlPackage, osw.NN("p"), nil) }}}
-			evs = append(evs, osw.ReconcileEvents(w)...)
+			if ll {
+				// the long-lived system is about what the package deployer remembers: Package and
+				// ObjectDeployment passes and image edits only (path replay makes every state cost its depth)
+				for _, e := range osw.ReconcileEvents(w) {
+					if strings.HasPrefix(e.Name, "reconcile:od:") {
+						evs = append(evs, e)
+					}
+				}
+			} else {
+				evs = append(evs, osw.ReconcileEvents(w)...)
+			}
 			evs = append(evs, osw.GCEvent(w)...)
 			if w.Budget["edit"] > 0 {
 				pk := w.S.Objs[world.PKOKey("Package", world.NS, "p")]
@@ -526,6 +541,9 @@ func gcSystem(edits int, chain bool, stale int) *world.System {
 			}
 			// objects become ready so that revisions get archived and pruned
 			for _, k := range w.S.SortedKeys() {
+				if ll {
+					break
+				}
 				if k.Group == world.TestGroup && osw.StatusClass(w.S.Objs[k].Content) != "ready" {
 					k := k
 					evs = append(evs, world.Event{Name: "workload:" + k.Name + "=ready", Apply: func(w *world.World) *world.Pass {
@@ -544,6 +562,19 @@ func gcSystem(edits int, chain bool, stale int) *world.System {
 			}
 			var out []world.Finding
 			v := osw.View{Before: before.S, Pass: pass}
+			// the deployment never references a slice that does not exist: after a completed Package
+			// pass every slice named in the ObjectDeployment's template is there
+			if pass.Ctrl == world.CtrlPackage && pass.Err == nil && !pass.Crashed {
+				if od := after.S.Objs[osw.ODKey(pass.Key.Name)]; od != nil {
+					for _, ph := range specSlices(od.Content) {
+						for _, sn := range ph {
+							if after.S.Objs[world.PKOKey("ObjectSlice", world.NS, sn)] == nil {
+								out = append(out, world.Finding{Monitor: "slice-transparency", Identity: "template-references-missing-slice", Message: fmt.Sprintf("after a completed Package pass the ObjectDeployment's template references ObjectSlice %s, which does not exist", sn)})
+							}
+						}
+					}
+				}
+			}
 			// a sliced ObjectSet reports status exactly like an inline one: the C06 status monitor,
 			// evaluated over the phases with their slices inlined
 			for _, f := range c06.Check(before, ev, pass, after) {
@@ -627,7 +658,7 @@ func gcSystem(edits int, chain bool, stale int) *world.System {
 
 func runGC(o checks.Opts) *report.Report {
 	rep := report.New("C14", "slice-gc")
-	rep.Rule = "explicit-state BFS: Package p (EachObject chunking) updated twice among v1{a,b}, v2{a,c}, v3{a,d} (quick: v1 -> v2 -> v3; thorough: any to any) (so that a slice can be referenced only by an archived revision that still exists) with the real Package, ObjectDeployment and ObjectSet controllers in any order, objects becoming ready, garbage collector, (budgeted) an ObjectSet pass whose cache does not show one of its slices yet; on every Available=True status write every object of every referenced slice exists on the cluster; on every ObjectSlice delete the slice must be referenced neither by the deployment's template nor by any existing ObjectSet at that instant"
+	rep.Rule = "explicit-state BFS: Package p (EachObject chunking) updated twice among v1{a,b}, v2{a,c}, v3{a,d} (quick: v1 -> v2 -> v3; thorough: any to any) (so that a slice can be referenced only by an archived revision that still exists) with the real Package, ObjectDeployment and ObjectSet controllers in any order, objects becoming ready, garbage collector, (budgeted) an ObjectSet pass whose cache does not show one of its slices yet, one system with all passes in one long-lived operator process (any image to any image); after every completed Package pass every slice named in the deployment's template exists; on every Available=True status write every object of every referenced slice exists on the cluster; on every ObjectSlice delete the slice must be referenced neither by the deployment's template nor by any existing ObjectSet at that instant"
 	edits, chain := 2, true
 	if !o.Quick() {
 		chain = false // any image to any other image
@@ -636,18 +667,21 @@ func runGC(o checks.Opts) *report.Report {
 		edits int
 		chain bool
 		stale int
+		ll    bool
 	}
-	cfgs := []cfg{{edits, chain, 0}, {1, true, 1}}
+	// the long-lived system reaches every state on one operator process (any image to any image,
+	// so that a dropped slice can come back: v1 -> v2 -> v1)
+	cfgs := []cfg{{edits, chain, 0, false}, {1, true, 1, false}, {2, false, 0, true}}
 	if !o.Quick() {
-		cfgs = append(cfgs, cfg{2, true, 1})
+		cfgs = append(cfgs, cfg{2, true, 1, false}, cfg{3, false, 0, true})
 	}
 	for i, c := range cfgs {
 		if o.Shards > 1 && i%o.Shards != o.Shard {
 			continue
 		}
-		sys := gcSystem(c.edits, c.chain, c.stale)
+		sys := gcSystem(c.edits, c.chain, c.stale, c.ll)
 		sys.MaxStates = 600000
-		osw.RunBFS(rep, sys, map[string]any{"edits": c.edits, "chain": c.chain, "stale": c.stale})
+		osw.RunBFS(rep, sys, map[string]any{"edits": c.edits, "chain": c.chain, "stale": c.stale, "longLived": c.ll})
 	}
 	rep.Bounds["edits"] = edits
 	rep.Bounds["any_to_any"] = !chain
@@ -659,7 +693,8 @@ func replayGC(v report.Violation) string {
 	chain, _ := v.Params["chain"].(bool)
 	edits, _ := v.Params["edits"].(float64)
 	stale, _ := v.Params["stale"].(float64)
-	return osw.ReplayBFS(gcSystem(int(edits), chain, int(stale)), v)
+	ll, _ := v.Params["longLived"].(bool)
+	return osw.ReplayBFS(gcSystem(int(edits), chain, int(stale), ll), v)
 }
 
 func init() {
@@ -675,9 +710,9 @@ func init() {
 			{Name: "inline-vs-sliced", Shards: func(string) int { return 4 }, Run: runDiff, Replay: replayDiff},
 			{Name: "slice-gc", Shards: func(t string) int {
 				if t == "thorough" {
-					return 3
+					return 5
 				}
-				return 2
+				return 3
 			}, Run: runGC, Replay: replayGC, Parallel: true},
 		},
 	})
